@@ -181,6 +181,19 @@ func cmdStress(args []string) int {
 	var mu sync.Mutex
 	var recs []rec
 	var wg sync.WaitGroup
+	// all goroutines open their handles, wait for each other, and then do the SAME first operations at the same moment:
+	// the select through a secondary index of a WITHOUT ROWID table (whatever is built lazily on first use is built by
+	// all of them at once)
+	var ready sync.WaitGroup
+	start := make(chan struct{})
+	var firstOps []int
+	for i, op := range ops {
+		if op.Table == "w" && (op.Kind == "indexed" || op.Kind == "select") {
+			firstOps = append(firstOps, i)
+		}
+	}
+	ready.Add(req.Goroutines)
+	go func() { ready.Wait(); close(start) }()
 	for g := 0; g < req.Goroutines; g++ {
 		wg.Add(1)
 		go func(g int) {
@@ -188,6 +201,7 @@ func cmdStress(args []string) int {
 			rnd := rand.New(rand.NewSource(req.Seed + int64(g)))
 			f := req.DBs[g%len(req.DBs)]
 			db, err := sqlittle.Open(f) // every goroutine its own handle
+			ready.Done()
 			if err != nil {
 				mu.Lock()
 				recs = append(recs, rec{g, f + "|open", false, digestRows(nil, err)})
@@ -195,8 +209,12 @@ func cmdStress(args []string) int {
 				return
 			}
 			defer db.Close()
-			for i := 0; i < req.OpsPer; i++ {
+			<-start
+			for i := 0; i < req.OpsPer+len(firstOps); i++ {
 				k := rnd.Intn(len(ops))
+				if i < len(firstOps) {
+					k = firstOps[i]
+				}
 				d := runNative(db, ops[k])
 				key := fmt.Sprintf("%s|n%d", f, k)
 				mu.Lock()
